@@ -173,6 +173,10 @@ def concretize(v, model):
     if isinstance(v, SymFloat):
         if v.iz is not None:
             return float(model.eval(v.iz, model_completion=True).as_long())
+        if v._r is None and v.quot is not None:
+            x = model.eval(v.quot[0], model_completion=True).as_long()
+            y = model.eval(v.quot[1], model_completion=True).as_long()
+            return x / y          # Python's own correctly rounded int / int
         r = model.eval(v.r, model_completion=True)
         if z3.is_algebraic_value(r):
             r = r.approx(30)
